@@ -5,7 +5,7 @@
     startCommand, updateTiming) driven by an ARBITRARY scheduler oracle ([offers]: at most
     one queued column command per tick, ready or not) with an ARBITRARY timing table [T]
     and tFAW value.  [trace] is the stream of issued commands, oldest first. *)
-From Akita Require Import Lib.Base C22.Model C22.Proofs C22.Proofs2 C22.Proofs3 C22.Proofs4.
+From Akita Require Import Lib.Base C22.Model C22.Proofs C22.Proofs2 C22.Proofs3 C22.Proofs4 C22.Init.
 Local Open Scope N_scope.
 
 (** [Model.run] (accumulating, as evaluated in the correspondence check) issues exactly [trace]. *)
@@ -120,20 +120,47 @@ Example c22_init_wf :
   wfb (init_st 2 4 4) = true /\ wfb (init_st 3 2 3) = true.
 Proof. vm_compute. repeat split. Qed.
 
-(** ... and for every geometry up to 4 ranks x 8 bank groups x 8 banks (a finite domain, by
-    computation; covers every preset and every geometry the generator draws). *)
-Lemma c22_init_wf_bounded : forall nr nbg nb,
-  In nr [1; 2; 3; 4] -> In nbg [1; 2; 3; 4; 5; 6; 7; 8] -> In nb [1; 2; 3; 4; 5; 6; 7; 8] ->
-  wf (init_st nr nbg nb) /\ all_closed (init_st nr nbg nb) /\ no_hist (init_st nr nbg nb).
+(** The state Build installs satisfies the hypotheses for ARBITRARY geometry (any numbers of
+    ranks, bank groups and banks): well-formed layout, every bank closed, empty histories, and
+    bankFlatIndex is a bijection between the in-range coordinates and the nr*nbg*nb slots. *)
+Theorem c22_init_state : forall nr nbg nb,
+  wf (init_st nr nbg nb) /\ all_closed (init_st nr nbg nb) /\ no_hist (init_st nr nbg nb) /\
+  length (s_hist (init_st nr nbg nb)) = N.to_nat nr.
 Proof.
-  intros nr nbg nb Hr Hg Hb. split; [|split; [apply init_all_closed|apply init_no_hist]].
-  apply wfb_sound.
-  assert (forallb (fun r => forallb (fun g => forallb (fun b => wfb (init_st r g b))
-            [1; 2; 3; 4; 5; 6; 7; 8]) [1; 2; 3; 4; 5; 6; 7; 8]) [1; 2; 3; 4] = true) as A by (vm_compute; reflexivity).
-  rewrite forallb_forall in A. specialize (A nr Hr).
-  rewrite forallb_forall in A. specialize (A nbg Hg).
-  rewrite forallb_forall in A. exact (A nb Hb).
+  intros nr nbg nb. destruct (init_hist nr nbg nb) as [H1 H2].
+  split; [apply init_wf|split; [apply init_closed|split; [exact H1|exact H2]]].
 Qed.
+Print Assumptions c22_init_state.
+
+Theorem c22_flat_index_bijection : forall nr nbg nb,
+  let s := init_st nr nbg nb in
+  length (s_entries s) = N.to_nat (nr * nbg * nb) /\
+  (forall l, l_rank l < nr -> l_bg l < nbg -> l_bank l < nb ->
+     flat_index s l < nr * nbg * nb /\
+     exists e, find_entry s l = Some e /\ e_rank e = l_rank l /\ e_bg e = l_bg l /\ e_bank e = l_bank l) /\
+  (forall l1 l2, l_bg l1 < nbg -> l_bank l1 < nb -> l_bg l2 < nbg -> l_bank l2 < nb ->
+     flat_index s l1 = flat_index s l2 ->
+     l_rank l1 = l_rank l2 /\ l_bg l1 = l_bg l2 /\ l_bank l1 = l_bank l2) /\
+  (forall i, (i < N.to_nat (nr * nbg * nb))%nat ->
+     exists e, nth_error (s_entries s) i = Some e /\
+       N.of_nat i = (e_rank e * nbg + e_bg e) * nb + e_bank e /\ e_rank e < nr /\ e_bg e < nbg /\ e_bank e < nb) /\
+  (forall l e, l_bg l < nbg -> l_bank l < nb -> find_entry s l = Some e -> l_rank l < nr).
+Proof. exact flat_index_bijection. Qed.
+Print Assumptions c22_flat_index_bijection.
+
+(** Hence, for every clean start of every geometry, with no computed side condition: *)
+Theorem c22_clean_start : forall T tfaw nr nbg nb offers,
+  Forall (in_range nbg nb) offers ->
+  let tr := trace T tfaw (init_st nr nbg nb) offers in
+  legal_from [] tr = true /\ all_sep T tr = true /\
+  ((0 < tfaw)%Z -> forall r, (r < N.to_nat nr)%nat -> tfaw_ok_rev tfaw (acts_rev (N.of_nat r) (rev tr)) = true).
+Proof.
+  intros T tfaw nr nbg nb offers R tr.
+  destruct (c22_init_state nr nbg nb) as [W [C [NH L]]].
+  split; [apply c22_state_machine_legal; auto|]. split; [apply min_separation; auto|].
+  intros P r Hr. apply tfaw_window; auto. rewrite L. exact Hr.
+Qed.
+Print Assumptions c22_clean_start.
 
 (** Non-vacuity: a DDR4-like table on a 1x2x2 device, an oracle that forces a row conflict:
     the model issues ACT, RD, PRE, ACT, RD, RD, RD with the expected gaps and all hypotheses hold. *)
